@@ -3,7 +3,10 @@
 package tree
 
 import (
+	"bytes"
 	"fmt"
+	"io"
+	"os"
 	"reflect"
 	"runtime/debug"
 	"strings"
@@ -11,6 +14,7 @@ import (
 	pa "github.com/benoitkugler/webrender/css/parser"
 	pr "github.com/benoitkugler/webrender/css/properties"
 	"github.com/benoitkugler/webrender/css/selector"
+	"github.com/benoitkugler/webrender/logger"
 	"github.com/benoitkugler/webrender/utils"
 )
 
@@ -168,6 +172,71 @@ func vLexLE(a, b weight) bool {
 //@   call append#3 assert selectors[0].specificity == specificity && selectors[0].pageType == pageType
 //@   unclaimed call-*-pre1 "token lists held in parsed rules contain no nil token: a data invariant of the parser's output that is not tracked through Compound values"
 //@   unclaimed call-parsePageSelectors@1-pre2 "function-block arguments produced by the tokenizer contain no nil token and no identifier or number with an empty representation: a data invariant of the parser's output that is not tracked through Compound values"
+
+// bounded stand-in (C01): @import graphs. Three stylesheets a, b and c each import nothing, one or two of
+// a, b, c and a missing sheet (in either order): 21^3 graphs, self imports and longer cycles included.
+// Loading a must return (an import that would load a sheet already being loaded is reported and skipped).
+// A stack overflow is fatal to the process: the check then reports "enumerator did not run".
+func vImportGraphs() (n int, fails []string) {
+	debug.SetMaxStack(64 << 20)
+	logger.WarningLogger.SetOutput(io.Discard)
+	defer logger.WarningLogger.SetOutput(os.Stdout)
+	logger.ProgressLogger.SetOutput(io.Discard)
+	defer logger.ProgressLogger.SetOutput(os.Stdout)
+	names := []string{"a", "b", "c", "missing"}
+	var lists [][]string
+	lists = append(lists, nil)
+	for _, x := range names {
+		lists = append(lists, []string{x})
+		for _, y := range names {
+			lists = append(lists, []string{x, y})
+		}
+	}
+	sheet := func(imports []string, width int) string {
+		var sb strings.Builder
+		for _, i := range imports {
+			fmt.Fprintf(&sb, "@import url(%s.css);\n", i)
+		}
+		fmt.Fprintf(&sb, "p { width: %dpx }\n", width)
+		return sb.String()
+	}
+	for _, ia := range lists {
+		for _, ib := range lists {
+			for _, ic := range lists {
+				files := map[string]string{"http://x/a.css": sheet(ia, 1), "http://x/b.css": sheet(ib, 2), "http://x/c.css": sheet(ic, 3)}
+				fetched := 0
+				fetch := func(url string) (utils.RemoteRessource, error) {
+					fetched++
+					if c, ok := files[url]; ok {
+						return utils.RemoteRessource{Content: bytes.NewReader([]byte(c)), MimeType: "text/css"}, nil
+					}
+					return utils.RemoteRessource{}, fmt.Errorf("not found: %s", url)
+				}
+				n++
+				name := fmt.Sprintf("a imports %v, b imports %v, c imports %v", ia, ib, ic)
+				func() {
+					defer func() {
+						if r := recover(); r != nil && len(fails) < 5 {
+							fails = append(fails, fmt.Sprintf("%s: panic: %v", name, r))
+						}
+					}()
+					if _, err := newCSS(utils.InputUrl("http://x/a.css"), "", fetch, false, "print", nil, nil, nil, nil); err != nil && len(fails) < 5 {
+						fails = append(fails, fmt.Sprintf("%s: %v", name, err))
+					}
+					// every sheet is loaded at most once per import path: the number of fetches is bounded by the
+					// number of simple paths (at most 1 + 2 + 4 + 8 here, missing sheets included)
+					if fetched > 64 && len(fails) < 5 {
+						fails = append(fails, fmt.Sprintf("%s: %d fetches", name, fetched))
+					}
+				}()
+			}
+		}
+	}
+	return n, fails
+}
+
+//@ bounded vImportGraphs newCSS on every @import graph over three stylesheets that each import at most two of a, b, c and a missing sheet (9 261 graphs, self imports and cycles included): returns, without a panic or stack exhaustion
+//@   props C01 C03
 
 // a stylesheet is processed for the media type it is given ("print" when none is), imports allowed at its top
 //@ func newCSS
